@@ -201,6 +201,7 @@ def run(ctx, verdict, replay=None, model_ok=True):
             shapes = {k: rng.random() < 0.5 for k in pipegen.SHAPE_KEYS}
             shapes["nested_params"] = False   # the value of a nested parameter is C03's subject
             shapes["mutual_params"] = False
+            shapes["case_twins"] = False      # restricts the outputs to the two schema languages
             # intersections with an inline struct branch (what language passes rewrite in place):
             # every third base, with the languages that generate them
             shapes["intersection"] = (i % 3 == 1)
